@@ -42,6 +42,10 @@ MaxSize(net, ch, sliced) ==
 Combo(net, ch, sliced, factor) ==
     Mult(net, sliced) * SumOver(DOMAIN ch, LAMBDA p :
         NodeFlops(net, ch, SlSet(sliced), p) + factor * Size(net, p, SlSet(sliced)))
+(* the per-step maximum variant ("limit" objective): every step costs max(flops, factor * size) *)
+Limit(net, ch, sliced, factor) ==
+    Mult(net, sliced) * SumOver(DOMAIN ch, LAMBDA p :
+        Max2(NodeFlops(net, ch, SlSet(sliced), p), factor * Size(net, p, SlSet(sliced))))
 SlicedInputs(net, sliced) == {t \in Leaves(net) : OnT(net, t) \cap SlSet(sliced) # {}}
 PreLeaves(net, sliced)    == {t \in Leaves(net) : NeedsPre(net, t, SlSet(sliced))}
 
